@@ -81,6 +81,12 @@ func c35run(c *runner.Ctx) runner.Result {
 	}
 	h := genHistory(r, o)
 	h.PreShutdownUs = r.PickI(0, 0, 300, 1200, 2500, 5000, 9000, 15000)
+	// In half of the cases the checkpoint timer is far longer than the whole run, so that the
+	// transactions of the history are still un-checkpointed when the shutdown is requested and only
+	// the shutdown's own flush + checkpoint can make the restart replay-free.
+	if c.Case%2 == 1 {
+		h.PrimMs = r.PickI(400, 1500, 5000)
+	}
 	dir := filepath.Join(c.Scratch, "rec")
 	rec, err := record(h, dir)
 	if err != nil {
@@ -239,7 +245,8 @@ func c35run(c *runner.Ctx) runner.Result {
 	sig := strings.Join(dedupRuns(loop), ">")
 	res.Set("loop_event_orders", sig)
 	res.Count("loop_events", int64(len(loop)))
-	res.Sig = fmt.Sprintf("%s/th%d/pre%d/%s", h.End, len(h.Threads), h.PreShutdownUs, sig)
+	res.Sig = fmt.Sprintf("%s/th%d/pre%d/prim%d/%s", h.End, len(h.Threads), h.PreShutdownUs, h.PrimMs, sig)
+	res.Count("cases_with_checkpoint_timer_longer_than_run", b2i(h.PrimMs >= 400))
 	if c.Case < 3 {
 		res.Sample = map[string]interface{}{"history": summarise(rec, 1), "end": h.End, "pre_shutdown_us": h.PreShutdownUs, "loop_events": trunc(sig, 300), "shutdown_tail": dedupRuns(tailKinds)}
 	}
@@ -264,6 +271,13 @@ func onlyLateDiffers(a, b *hist.Dump, late map[int64]bool) bool {
 	return dumpDiff(strip(a), strip(b)) == ""
 }
 
+func b2i(b bool) int64 {
+	if b {
+		return 1
+	}
+	return 0
+}
+
 func dedupRuns(xs []string) []string {
 	var out []string
 	for _, x := range xs {
@@ -284,7 +298,7 @@ func init() {
 		Batch:        4,
 		Par:          8,
 		BatchTimeout: 20 * time.Minute,
-		Need:         []string{"shutdowns", "restarts_ok", "queries_compared", "loop_events"},
+		Need:         []string{"shutdowns", "restarts_ok", "queries_compared", "loop_events", "cases_with_checkpoint_timer_longer_than_run"},
 		Run:          c35run,
 	})
 }
